@@ -81,6 +81,14 @@ def configs(tier, seed):
                 out.append({"cls": cls, "shape": list(sh), "init": init})
         for cls in ("R", "W", "ResRAW0", "ResRAWL", "ResR0WA", "ResR0W0"):
             out.append({"cls": cls, "shape": list(sh), "init": None})
+    # "a field's data output always equals what a bus read of it returns" / "reserved fields influence nothing":
+    # the action placed in a register between a reserved field and another field, read through the element port
+    for sh in shapes[:6]:
+        for cls in ("RW", "RW1C", "RW1S"):
+            if sh[0].startswith("e") and cls != "RW":
+                continue
+            for res in ("ResRAW0", "ResR0WA"):
+                out.append({"cls": cls, "shape": list(sh), "init": 1 if _width(sh) else 0, "inreg": res})
     return out
 
 
@@ -93,7 +101,57 @@ def _to_init(desc, init):
     return init
 
 
+def _inreg_maker(cfg):
+    from amaranth_soc import csr
+
+    def make():
+        sh = _shape(cfg["shape"])
+        reg = csr.Register({"lo": csr.Field(action.RW, 3), "res": csr.Field(getattr(action, cfg["inreg"]), 2),
+                            "x": csr.Field(getattr(action, cfg["cls"]), sh, init=_to_init(cfg["shape"], cfg["init"])),
+                            "res2": csr.Field(getattr(action, cfg["inreg"]), 1), "hi": csr.Field(action.RW, 4)}, access="rw")
+        from ..bmc import Ports, raw
+        from amaranth.lib.wiring import In
+        ports = Ports()
+        for path, member, s in reg.signature.flatten(reg):
+            s = raw(s)
+            ports.append(s)
+            if path[-1] in ("r_stb", "w_stb", "w_data"):
+                ports.env.add(id(s))
+        for name in ("lo", "x", "hi"):
+            fa = reg.f[name]
+            for path, member, s in fa.signature.flatten(fa):
+                s = raw(s)
+                if any(s is p for p in ports):
+                    continue
+                ports.append(s)
+                if path[0] != "port" and member.flow == In:
+                    ports.env.add(id(s))
+        return Harness(reg, ports, reg=reg)
+    return make
+
+
+def _inreg_queries(h, cfg):
+    w = _width(cfg["shape"])
+    lo_x = 3 + 2
+
+    def readback(h, fr):
+        f = fr[0]
+        reg = h.reg
+        rd = f.sig(reg.element.r_data)
+        bad = [z3.Extract(2, 0, rd) != f.sig(reg.f.lo.data), z3.Extract(4, 3, rd) != 0]
+        if w:
+            bad.append(z3.Extract(lo_x + w - 1, lo_x, rd) != f.sig(reg.f.x.data))
+        bad.append(z3.Extract(lo_x + w, lo_x + w, rd) != 0)
+        bad.append(z3.Extract(lo_x + w + 4, lo_x + w + 1, rd) != f.sig(reg.f.hi.data))
+        return [], z3.Or(*bad)
+    return [Q("bus-read-of-a-field-equals-its-data", 1, readback,
+              twin=lambda h, fr: ([], fr[0].sig(h.reg.element.r_data) != 0))]
+
+
 def maker(cfg):
+    if cfg.get("inreg"):
+        return _inreg_maker(cfg)
+
     def make():
         cls = getattr(action, cfg["cls"])
         sh = _shape(cfg["shape"])
@@ -111,6 +169,8 @@ def maker(cfg):
 
 
 def queries(h, cfg):
+    if cfg.get("inreg"):
+        return _inreg_queries(h, cfg)
     a = h.a
     cls = cfg["cls"]
     w = _width(cfg["shape"])
@@ -159,7 +219,7 @@ def queries(h, cfg):
 
 def check(cfg, out, stats):
     run_queries(__import__(__name__, fromlist=["x"]), cfg, out, stats, cosim_cycles=12)
-    if cfg["cls"].startswith("Res"):
+    if cfg["cls"].startswith("Res") and not cfg.get("inreg"):
         # "reserved fields influence nothing": the elaborated action has no state and drives none of
         # its interface signals (every port signal is left as a free input of the netlist).
         h = maker(cfg)()
